@@ -42,8 +42,12 @@ CLAIMS = {
            "cut of ANY run continues like the original on every later event list; hypotheses left: quiescence and "
            "SnapOK, both evaluated by driver_snap at every explored cut) (30); cut-point and corrupt-snapshot checks "
            "on the code, exact accept/reject/error-class tie on ~125 corrupt texts per case; restore_rejects_shape_* for all "
-           "seven keys incl. actors/system, restore_shape_first, restore_wellshaped_outcome (39); findings F40 and F43 "
-           "fixed in the library (prefix_resume_history_order_counterexample is the pre-fix witness of F40)",
+           "seven keys incl. actors/system, restore_shape_first, restore_wellshaped_outcome; ACTOR TREES (Model/SnapshotTree, "
+           "parametric in the per-interpreter payload): tree_restore_snap, tree_snap_restore, tree_cycle_fixed, "
+           "tree_repeated_cycles, tree_registry_after_restore, tree_registered_iff, tree_degraded_cycle, tied through "
+           "driver_snap TREE on the actors/system part of every real snapshot; the actor-tree monitor compares restored "
+           "trees, registries, addressing and continuations on both engines (51). Findings F40 F43 F60 F63 fixed in the "
+           "library; F61 (sync watcher of a restored child) and F62 (systemIds of parked records) open",
     "C14": "theorems over the lifecycle model (start/stop/send/send_events/restore call sequences, both engines): "
            "status_edges(_run) (only the documented status edges), stop_idempotent, stop_from_any_status, "
            "start_after_stop_raises, start_idempotent_running, start_noop_when_finished, start_resumes_restored, "
